@@ -65,6 +65,7 @@ static CO_ERR COTSyncCycleWrite(struct CO_OBJ_T *obj, struct CO_NODE_T *node, vo
     CO_ERR   result;
     CO_SYNC *sync;
     uint32_t nus, ous;
+    CO_ERR   pending;
 
     CO_UNUSED(size);
 
@@ -86,8 +87,17 @@ static CO_ERR COTSyncCycleWrite(struct CO_OBJ_T *obj, struct CO_NODE_T *node, vo
 
     /* Reactivate sync producer with new cycle value */
     if ((sync->CobId & CO_SYNC_COBID_ON) != 0) {
+        /* detect errors of this activation, only */
+        pending     = node->Error;
+        node->Error = CO_ERR_NONE;
         COSyncProdActivate(sync);
-        if (node->Error == CO_ERR_SYNC_RES) {
+        if (node->Error == CO_ERR_NONE) {
+            node->Error = pending;
+            pending     = CO_ERR_NONE;
+        } else {
+            pending     = node->Error;
+        }
+        if (pending == CO_ERR_SYNC_RES) {
             /*
              * Restore old SYNC cycle value because used timer has
              * resolution that is not able to produce SYNCs with new
